@@ -156,6 +156,30 @@ def is_known_braces(caller_text, message):
     return False
 
 
+def quoted_text_cases():
+    """every SyntaxError of a public entry point quotes EXACTLY the caller's description (Expression: "<text>")"""
+    import re
+    import einx
+    out = []
+    x = np.zeros((2, 3))
+    bad = ["a (", "a [b", "a b)", "a ]", "a (b + c", "a,, (b", "a -> (", "(a b"]
+    entries = [("id", lambda d: einx.id(d, x)), ("sum", lambda d: einx.sum(d, x)), ("add", lambda d: einx.add(d, x, x)),
+               ("solve_axes", lambda d: einx.solve_axes(d, x)), ("solve_shapes", lambda d: einx.solve_shapes(d, x)), ("check", lambda d: einx.check(d, x) if hasattr(einx, "check") else None)]
+    for name, fn in entries:
+        for d in bad:
+            if name in ("solve_axes", "solve_shapes", "check") and "->" in d:
+                continue
+            o = harness.outcome(lambda: fn(d), 10)
+            if o[0] != "exc" or o[1] != "einx.errors.SyntaxError":
+                continue
+            m = re.search(r'Expression: "(.*)"', o[2])
+            if not m:
+                out.append((name, d, None, "no quoted expression in the message"))
+            elif m.group(1) != d:
+                out.append((name, d, m.group(1), f"einx.{name}({d!r}) quotes {m.group(1)!r}"))
+    return out
+
+
 def add(chk, tier, seed):
     kp = 5 if tier == "quick" else 6  # totality / quoting
     kr = 4 if tier == "quick" else 5  # round trip / re-spacing
@@ -189,6 +213,13 @@ def add(chk, tier, seed):
         chk.violation(ob, detail, replay={"kind": "case", "case": {"string": s, "replay": {"fn": "vf.props._parser_enum:replay", "args": [s]}}}, found_input=True)
     chk.add_bounded("exhaustive token sequences over {a b 1 ( ) [ ] ... -> , + space |} through the real parse_op", f"length <= {kp} for totality/quoting, <= {kr} for round trip and re-spacing",
                     total, nontriv, failures=fails, exhaustive=True, samples=["a b -> (a + b)", "[a]..."])
+    qt = quoted_text_cases()
+    for name, d, quoted, msg in qt:
+        if name in ("solve_axes", "solve_shapes", "check") and quoted == d + " ->":
+            chk.known_finding("F-solve-arrow-suffix", "syntax errors of solve_axes / solve_shapes / check quote the description with an appended ' ->' (e.g. solve_axes('a (', x) quotes 'a ( ->')")
+            continue
+        chk.violation("C12.B.quotes_caller_exactly", msg, replay={"kind": "case", "case": {"entry": name, "description": d, "quoted": quoted}}, found_input=True)
+    chk.add_bounded("quoted expression of SyntaxErrors raised through public entry points equals the caller's description", "8 malformed descriptions x 6 entry points", 48, 48, failures=qt)
     el = elop_strings()
     for op, d, shape, msg in el:
         if is_known_braces(d, msg):
